@@ -293,14 +293,32 @@ def run(tier, seed, only=None):
     ctx = common.Ctx()
     timeout_ms = 60000 if tier == 'quick' else 600000
 
-    def go():
-        run_flags(ctx, report, 'flags', base_spec('older-walrus'), timeout_ms)
-        for kind in ('older-walrus', 'same-walrus', 'foreign-only', 'none'):
-            run_producers(ctx, report, kind, timeout_ms)
-        run_on_parse(ctx, report, timeout_ms)
-        run_setters(ctx, report)
-    engine.run_in_big_stack(go)
-    report.bounds = {'flags': 'the four emit-time switches symbolic (16 assignments, explored as path forks of the real emit_wasm)', 'producers': 'four input shapes: walrus listed with an older version, with the current version, only foreign fields, no section',
+    from obligations import gen
+    gl = gen.generated(tier, seed, n_quick=3, n_thorough=18)
+
+    def decorate(sp, k):
+        gen.with_names(sp, k)
+        shapes = ['older-walrus', 'same-walrus', 'foreign-only', 'none']
+        sp.producers = base_spec(shapes[k % 4]).producers
+        sp.customs = [dict(name=S('keepme'), data=Opaque('bytes:k0'), place='end'), dict(name=S('.debug_info'), data=Opaque('bytes:dbg0'), place='end'), dict(name=S('.debug_line'), data=Opaque('bytes:dbg1'), place='end')]
+        return sp
+
+    def job(ctx, report, kind, name, sp):
+        if kind == 'flags':
+            run_flags(ctx, report, name, sp, timeout_ms)
+        elif kind == 'producers':
+            run_producers(ctx, report, name, timeout_ms)
+        elif kind == 'on_parse':
+            run_on_parse(ctx, report, timeout_ms)
+        else:
+            run_setters(ctx, report)
+    items = [('flags', 'flags', base_spec('older-walrus'))]
+    items += [('flags', 'flags@' + n, decorate(sp, k)) for k, (n, sp) in enumerate(gl)]
+    items += [('producers', kind, None) for kind in ('older-walrus', 'same-walrus', 'foreign-only', 'none')]
+    items += [('on_parse', 'on_parse', None), ('setters', 'setters', None)]
+    items = [i for i in items if not only or i[1] in only]
+    pc.run_parallel(ctx, report, job, items)
+    report.bounds = {'generated': gen.bounds_text(tier, len(gl)) + ', each with a name section, one of four producers shapes, a custom section and two .debug sections (flags obligation)', 'flags': 'the four emit-time switches symbolic (16 assignments, explored as path forks of the real emit_wasm)', 'producers': 'four input shapes: walrus listed with an older version, with the current version, only foreign fields, no section',
                      'on_parse': 'one validator rejection injected at every call position of the full-module description', 'setters': 'all seven boolean setters, old state and argument symbolic'}
     report.assumptions = ['ModuleDebugData::emit is a recorder (gimli not encoded): only the gating and the carriage of the .debug* sections are claimed', 'only_stable_features gating is decided in C05']
     report.samples = [o.as_json() for o in report.obligations[:4]]
